@@ -1,4 +1,4 @@
-from sa.selftest.harness import M, T
+from sa.selftest.harness import M, T, Variant
 
 F = "sharepoint2text/sharepoint_io/client.py"
 MUTANTS = [
@@ -29,6 +29,7 @@ MUTANTS = [
     M("include-root-files-ignored", F, "            if not include_root_files and not file_meta.parent_path:\n                continue\n", "", "C18-CMP"),
 ]
 TWINS = [
+    T("folder-paths-skip-on-segment-prefix", "sharepoint2text/sharepoint_io/client.py", "            for folder_path in target_folders:\n", "            walked_paths: list[str] = []\n            for folder_path in target_folders:\n                norm_path = folder_path.strip(\"/\")\n                if any(norm_path == done or norm_path.startswith(done + \"/\") for done in walked_paths):\n                    continue\n                walked_paths.append(norm_path)\n"),
     T("urlerror-not-converted", F, "        except URLError as exc:\n            raise SharePointRequestError(\n                f\"{request_kind} request failed due to network error: {exc.reason}\",\n                status_code=None,\n                body=None,\n                url=request.full_url,\n            ) from exc\n", ""),
     T("token-dropped-on-401-or-403", F, "            if exc.code == 401:\n", "            if exc.code == 401 and self._access_token is not None:\n"),
     T("transport-caught-as-exception", F, "except (OSError, http.client.HTTPException) as exc:", "except Exception as exc:"),
